@@ -641,6 +641,9 @@ func (c *TermCtx) intBin(op string, a, b *Term) *Term {
 	if (op == "+" || op == "-") && b.IsConst() && b.Val.Sign() == 0 {
 		return a
 	}
+	if op == "*" && (a.IsConst() && a.Val.Sign() == 0 || b.IsConst() && b.Val.Sign() == 0) {
+		return c.Inti(0)
+	}
 	if op == "-" {
 		if a == b {
 			return c.Inti(0)
@@ -663,6 +666,9 @@ func (c *TermCtx) intBin(op string, a, b *Term) *Term {
 		}
 		if a.IsConst() && !b.IsConst() {
 			a, b = b, a
+			if b.Val.Sign() == 0 {
+				return a
+			}
 		}
 		// (x - y) + y -> x ; y + (x - y) -> x
 		if a.Op == "-" && a.Args[1] == b {
@@ -1357,8 +1363,8 @@ func hasBoolStructure(t *Term) bool {
 	seen := map[int]bool{}
 	var walk func(t *Term)
 	walk = func(t *Term) {
-		if found || seen[t.id] {
-			return
+		if found || seen[t.id] || !t.open {
+			return // closed sub-terms are printed as named constants: their structure does not matter
 		}
 		seen[t.id] = true
 		switch t.Op {
